@@ -116,9 +116,21 @@ CcBelowInjector == \E i \in Idx("cc") : \E j \in Idx("flexfec") \cup Idx("nackre
 \* ---- known deviation: with a stream that negotiated transport-cc the cc interceptor refuses (and drops) every
 \* packet that does not already carry the extension, i.e. unless a header-extension member sits further from the transport
 CcNeedsTwccExt(e) == e.a = "bindl" /\ e.twcc # 0 /\ \E i \in Idx("cc") : ~\E j \in Idx("twcchdr") : j > i
-NewDevs(e) == IF e.a = "reset" \/ members = <<>> THEN {} ELSE
-              (IF CcBelowInjector THEN {"C01.PacerRoutesBySSRC"} ELSE {})
-              \cup (IF CcNeedsTwccExt(e) THEN {"C01.CcNeedsTwccExt"} ELSE {})
+\* Both recorded findings as NAMED as-found behaviour of an application write (the trace is not abandoned):
+\*   PacerRoutesBySSRC - a FEC member above the cc interceptor: the repair packets it injects are refused by the pacer and
+\*     the error is joined into the result of the application's own, successful write: an error of the chain's own (class 2) reported, packet on the wire;
+\*   CcNeedsTwccExt - a stream that negotiated transport-cc on a chain whose cc interceptor has no header-extension member
+\*     above it: the packet is refused and dropped before it reaches the transport (whether or not the transport would
+\*     have failed): an error of the chain's own reported, nothing on the wire.
+FecAboveCc == \E i \in Idx("cc") : \E j \in Idx("flexfec") : j > i
+NeedsExt(s) == s \in DOMAIN lcfg /\ lcfg[s].twcc # 0 /\ \E i \in Idx("cc") : ~\E j \in Idx("twcchdr") : j > i
+AsFoundWrite(e) ==
+  IF e.a # "wrtp" \/ e.skipped \/ e.blocked \/ e.panic # "" THEN {}
+  ELSE (IF "C01.PacerRoutesBySSRC" \in Known /\ FecAboveCc /\ ~e.fail /\ e.err = 2 /\ Len(e.wire) = 1 /\ WireOk(e.s, e.pkt, e.wire[1])
+        THEN {"C01.PacerRoutesBySSRC"} ELSE {})
+       \cup (IF "C01.CcNeedsTwccExt" \in Known /\ NeedsExt(e.s) /\ e.err = 2 /\ e.wire = <<>>
+             THEN {"C01.CcNeedsTwccExt"} ELSE {})
+NewDevs(e) == IF e.a = "reset" \/ members = <<>> THEN {} ELSE AsFoundWrite(e)
 
 Next ==
   /\ l <= Len(Trace)
@@ -128,8 +140,11 @@ Next ==
         /\ cnt' = [k \in DOMAIN cnt |-> 0] /\ closedSeen' = FALSE /\ devs' = {} /\ taint' = "" /\ l' = l + 1 /\ base' = l
      ELSE IF taint # "" THEN l' = l + 1 /\ UNCHANGED <<base, members, lcfg, rcfg, okSeq, okTw, nW, cnt, closedSeen, devs, taint>>
      ELSE IF Accept(e) /\ CloseErrsOk(e) THEN
-        /\ Step(e) /\ devs' = devs \cup NewDevs(e) /\ l' = l + 1 /\ UNCHANGED <<taint, base>>
-     ELSE LET k == (devs \cup NewDevs(e)) \cap Known IN
+        /\ Step(e) /\ devs' = devs /\ l' = l + 1 /\ UNCHANGED <<taint, base>>
+     ELSE IF members # <<>> /\ AsFoundWrite(e) # {} THEN      \* exactly the recorded behaviour: announced once per trace, validation goes on
+        /\ \A t \in AsFoundWrite(e) \ devs : PrintT(<<"KNOWNDEV", l, t>>)
+        /\ Step(e) /\ devs' = devs \cup AsFoundWrite(e) /\ l' = l + 1 /\ UNCHANGED <<taint, base>>
+     ELSE LET k == {} IN
         IF k # {} THEN /\ PrintT(<<"KNOWNDEV", l, CHOOSE t \in k : TRUE>>)
                        /\ taint' = (CHOOSE t \in k : TRUE) /\ l' = l + 1
                        /\ UNCHANGED <<base, members, lcfg, rcfg, okSeq, okTw, nW, cnt, closedSeen, devs>>
